@@ -212,8 +212,10 @@ def main(pid, run):
         from .servers import Livelock
         if isinstance(e, Livelock):
             ctx.violation({"phase": "driving the applications"}, "application calls return", str(e), "the library does not return: " + str(e)[:160])
+            rc = ctx.finish()
             sys.stdout.flush()
-            return ctx.finish()
+            sys.stderr.flush()
+            os._exit(rc)       # a thread of the library may still be spinning: do not wait for it at interpreter exit
         tb = traceback.extract_tb(e.__traceback__)
         lib = os.path.realpath(os.path.join(REPO, "baize")) + os.sep
         if tb and os.path.realpath(tb[-1].filename).startswith(lib):
